@@ -10,7 +10,7 @@ CFG = """SPECIFICATION Spec
 CONSTANTS
   Keys = {"a", "b", "c", "d"}
   Labels = {0, 1}
-  Filters = {"null", "all", "lx1", "lx0", "fnx0", "nlx1", "nsa"}
+  Filters = {"null", "all", "lx1", "lx0", "fnx0", "nlx1", "nsa", "anx0", "anx1"}
 INVARIANT Done
 CHECK_DEADLOCK FALSE
 """
@@ -26,9 +26,9 @@ CLASSES = {
     "C08": {"ready-before-sync", "publish-before-ready", "parent-not-ready", "ready-before-parent", "deferred-ready-without-filter",
             "ready-unsynced", "ready-twice", "event-before-ready", "emit-before-ready", "ready-observed-not-declared", "list-not-snapshot",
             "callback-before-ready", "flag-mismatch"},
-    "C10": ORDER | {"drop-not-full", "drop-unknown", "cache-not-current", "close-hangs", "shutdown-timeout"},
-    "C11": {"stopped-outside-closed-subtree", "cascade-incomplete", "shutdown-timeout", "closed-before-drained", "close-hangs"} | ORDER,
-    "C12": {"goroutine-leak", "shutdown-timeout", "close-hangs", "call-blocks-after-done", "call-fails-after-done", "closed-before-drained"},
+    "C10": ORDER | {"drop-not-full", "drop-unknown", "cache-not-current", "close-hangs", "shutdown-timeout", "api-call-blocks"},
+    "C11": {"stopped-outside-closed-subtree", "cascade-incomplete", "shutdown-timeout", "closed-before-drained", "close-hangs", "api-call-blocks"} | ORDER,
+    "C12": {"goroutine-leak", "shutdown-timeout", "close-hangs", "call-blocks-after-done", "call-fails-after-done", "closed-before-drained", "api-call-blocks"},
     "C16": {"callbacks-overlap", "initialize-not-first-or-twice", "callback-before-ready", "callback-after-done", "initialize-not-cache-content",
             "callback-before-initialize", "callback-not-next-event", "callback-of-unknown-monitor", "stuck-at-quiescence"},
 }
@@ -39,7 +39,7 @@ VARIANTS = {
     "C07": [("refilter", 1.0)],
     "C08": [("refilter", 0.5), ("mixed", 0.3), ("monitor", 0.2)],
     "C10": [("overflow", 1.0)],
-    "C11": [("close", 0.7), ("monitor", 0.3)],
+    "C11": [("close", 0.6), ("monitor", 0.2), ("overflow", 0.2)],
     "C12": [("close", 0.4), ("mixed", 0.3), ("overflow", 0.3)],
     "C16": [("monitor", 1.0)],
 }
@@ -55,7 +55,8 @@ def run_tree(prop, tier, res, want, variants, budget, events=100):
         n = max(NPROC, int(budget * share))
         per = max(1, n // NPROC)
         if variant == "overflow":
-            per = max(per, 7) if tier == "thorough" else max(per, 4)
+            # scenario idx selects the stream length {0,1,99,100,101,250,400,700}; these scenarios are long
+            per = max(per // 4, 8) if tier == "thorough" else 2
         for p in range(NPROC):
             out = os.path.join(sc, "tree-%s-%d.ndjson" % (variant, p))
             files.append((variant, out))
